@@ -264,3 +264,14 @@ def t_kamino_solend(world):
 _t1 = tasks
 def tasks(tier):
     return _t1(tier) + [('kamino_solend', t_kamino_solend)]
+
+
+# ---------------------------------------------------------------- C20.d: the adapter applies the adjusters to the right fields (shared with C09.g)
+def t_adjust_wiring(world):
+    import specs.C09 as C09
+    return C09.t_adjust(world, 'C20.d')
+
+
+_t2 = tasks
+def tasks(tier):
+    return _t2(tier) + [('adjust_wiring', t_adjust_wiring)]
